@@ -994,6 +994,14 @@ func c18Main(e *Env) {
 				continue
 			}
 			n++
+			// TrimPrefix(<the build version>, "v"), in this order
+			okArgs := false
+			if len(c.Call.Args) == 2 {
+				if pfx, isC := constString(c.Call.Args[1]); isC && pfx == "v" && derivesFromField(c.Call.Args[0], "GitVersion", 0) {
+					okArgs = true
+				}
+			}
+			r.Check(okArgs, "R18.5", key+"#strip-v-arguments", "the strip is strings.TrimPrefix(<build version>, \"v\") — value first, prefix second", e.P.Pos(st.Pos()))
 			guardedP := underHasPrefixOfField(fn, fa, st)
 			guardedV := false
 			for _, blk := range fn.Blocks {
@@ -1018,6 +1026,57 @@ func c18Main(e *Env) {
 			r.Check(guardedP && guardedV, "R18.5", key+"#strip-v", "the leading v of an injected build version is stripped only when the value has that prefix and is a valid semantic version", e.P.Pos(st.Pos()))
 		}
 	}
+	// the version injected with -ldflags "-X main.version=…" becomes the build version whenever it is given
+	okLd, whyLd := false, "no assignment of the package variable `version` to GitVersion"
+	for _, b := range fn.Blocks {
+		for _, ins := range b.Instrs {
+			st, ok := ins.(*ssa.Store)
+			if !ok {
+				continue
+			}
+			fa, ok := st.Addr.(*ssa.FieldAddr)
+			if !ok || fieldName(fa) != "GitVersion" {
+				continue
+			}
+			ld, ok := st.Val.(*ssa.UnOp)
+			if !ok {
+				continue
+			}
+			g, ok := ld.X.(*ssa.Global)
+			if !ok || g.Name() != "version" {
+				continue
+			}
+			// guards: none, or `version != ""` on its true edge only
+			okG := true
+			for _, blk := range fn.Blocks {
+				iff, isIf := blk.Instrs[len(blk.Instrs)-1].(*ssa.If)
+				if !isIf {
+					continue
+				}
+				for _, onTrue := range []bool{true, false} {
+					if !edgeDominates(blk, onTrue, st) {
+						continue
+					}
+					good := false
+					if bo, isB := iff.Cond.(*ssa.BinOp); isB {
+						if k, isK := constString(bo.Y); isK && k == "" {
+							if l2, isL := bo.X.(*ssa.UnOp); isL && l2.X == g {
+								good = (bo.Op == token.NEQ) == onTrue
+							}
+						}
+					}
+					if !good {
+						okG = false
+						whyLd = "the assignment of the injected version depends on " + iff.Cond.String()
+					}
+				}
+			}
+			if okG {
+				okLd = true
+			}
+		}
+	}
+	r.Check(okLd, "R18.5", key+"#ldflags-version-used", "the injected version (package variable version) is assigned to the build version whenever it is non-empty ("+whyLd+")")
 	c18Chain(e)
 	if n == 0 {
 		r.Violate("R18.5", key+"#strip-v", "main no longer strips the v that ldflags inject: NewVersionValidator would test \"vv1.2.3\", find it invalid, and skip the gate for every release build", nil)
